@@ -1093,6 +1093,47 @@ def r_val_auth(E):
                     f"in the {k} branch the other attribute's value is `{norm(par)[:90]}`: the object's own value is only "
                     f"a fallback, the first source is keyed by attribute name alone — in an update that touches two "
                     f"objects, one object's pending value is used to validate the other's", rel, g.lineno, fn.name))
+    # a caller that asks for the check only for names it has looked up first (`if name in <names>: self.check_…(name, …)`)
+    # must look them up in every table the check consults: a name that is a key of a table left out of <names> is never
+    # checked against that table
+    from ..astutil import expansions as _exps_va
+    tables = list(cases)
+    for mod, (rel_c, tree_c, _) in sorted(pm.modules.items()):
+        for caller in [f_ for f_ in ast.walk(tree_c) if isinstance(f_, ast.FunctionDef) and f_ is not fn]:
+            for c in [x for x in ast.walk(caller) if isinstance(x, ast.Call) and isinstance(x.func, ast.Attribute)
+                      and x.func.attr == fn.name and x.args]:
+                res.instances += 1
+                name_arg = norm(c.args[0])
+                # the tables as the caller names them (positional arguments 3..5 of the check / keywords)
+                passed = {}
+                for i, k in enumerate(tables):
+                    a_ = c.args[2 + i] if len(c.args) > 2 + i else next((kw.value for kw in c.keywords if kw.arg == k), None)
+                    if a_ is not None:
+                        passed[k] = sorted({norm(a_)} | {norm(y_) for y_ in _exps_va(a_, caller)})
+                x = getattr(c, "_parent", None)
+                gate = None
+                while x is not None and x is not caller:
+                    if isinstance(x, ast.If) and isinstance(x.test, ast.Compare) and len(x.test.ops) == 1 \
+                            and isinstance(x.test.ops[0], ast.In) and norm(x.test.left) == name_arg \
+                            and any(y is c for b_ in x.body for y in ast.walk(b_)):
+                        gate = x
+                        break
+                    x = getattr(x, "_parent", None)
+                if gate is None or len(passed) != 3:
+                    continue
+                alts = [norm(a_) for a_ in _exps_va(gate.test.comparators[0], caller)]
+                missing = [k for k, ts_ in passed.items() if not all(any(t_ in a_ for t_ in ts_) for a_ in alts)]
+                if missing:
+                    pc_ = getattr(caller, "_parent", None)
+                    while pc_ is not None and not isinstance(pc_, ast.ClassDef):
+                        pc_ = getattr(pc_, "_parent", None)
+                    q = f"{pc_.name}.{caller.name}" if pc_ is not None else caller.name
+                    res.findings.append(Finding(
+                        "R-VAL-AUTH", f"{q} :: allowed-values check asked only for names of some tables",
+                        f"{q} calls {fn.name} only when `{norm(gate.test)[:80]}`, and that collection "
+                        f"(`{alts[0][:100]}`) leaves out the keys of {missing}: an input whose allowed values are declared "
+                        f"there only is never checked at this entry point, so a value outside its list is accepted",
+                        rel_c, gate.lineno, q))
     res.floor = 5
     return res
 
